@@ -237,6 +237,277 @@ theorem immField_run_frozen (tbl : List MethodRec) (O : Oracles) (c : ClassOpts)
     exact immField_run_frozen tbl O c fields f w hf hfield htbl rest _ hops.2
       (immField_step_frozen tbl O c fields s f w op hf hfield hs htbl hops.1)
 
+/-! ### every operation: nested calls under either binding, kept (stale) references -/
+
+theorem nestedBound_immutable (O : Oracles) (c : ClassOpts) (fields : List (String × FieldDecl))
+    (s : Attrs) (f : String) (k : PyVal) (kind : String) (r : MethodRec) (m : NOp) (cur elem : PyVal)
+    (hi : c.immutable = true) (hr : (r.guarded || r.validated) = true) :
+    ∃ e, nestedBoundStep O c fields s f k kind r m cur elem = (s, .err e) := by
+  unfold nestedBoundStep
+  cases hg : r.guarded
+  · simp only [hg, Bool.false_or] at hr
+    simp only [Bool.false_and, Bool.false_eq_true, if_false, hr, if_true]
+    cases applyNative kind m elem with
+    | error e => exact ⟨_, rfl⟩
+    | ok new =>
+      simp only []
+      split
+      · exact ⟨_, rfl⟩
+      · exact ⟨_, setattr_immutable O c fields s f _ hi⟩
+  · simp [hi]
+
+/-- on an immutable structure no operation changes the state, whichever way nested wrappers are bound -/
+theorem immutable_stepB_state (bound dh : Bool) (tbl : List MethodRec) (O : Oracles) (c : ClassOpts)
+    (fields : List (String × FieldDecl)) (s : Attrs) (op : Op)
+    (hi : c.immutable = true) (htbl : GuardedTbl tbl = true) :
+    (stepB bound dh tbl O c fields s op).1 = s := by
+  have hdel : ∀ f, (delitemStepH dh O c s f).1 = s := by
+    intro f
+    unfold delitemStepH
+    rw [delitem_immutable c s f hi]
+    cases dh <;> rfl
+  cases bound with
+  | false =>
+    cases op with
+    | delitem f => exact hdel f
+    | setattr f v => exact immutable_step_state tbl O c fields s (.setattr f v) hi htbl
+    | call f m => exact immutable_step_state tbl O c fields s (.call f m) hi htbl
+    | callNested f k m => exact immutable_step_state tbl O c fields s (.callNested f k m) hi htbl
+  | true =>
+    cases op with
+    | callNested f k m =>
+      simp only [stepB]
+      split
+      · split
+        · split
+          · rfl
+          · rename_i kind _
+            split
+            · rfl
+            · rename_i r hfind
+              rcases nestedBound_immutable O c fields s f k kind r m _ _ hi
+                ((List.all_eq_true.mp htbl) r (findRec_mem tbl kind m.name r hfind)) with ⟨e, he⟩
+              rw [he]
+        · rfl
+      · rfl
+    | setattr f v => exact immutable_step_state tbl O c fields s (.setattr f v) hi htbl
+    | delitem f => exact hdel f
+    | call f m => exact immutable_step_state tbl O c fields s (.call f m) hi htbl
+
+/-- … and neither does a mutator called on a wrapper reference the caller kept -/
+theorem immutable_stepR_state (bound dh : Bool) (tbl : List MethodRec) (O : Oracles) (c : ClassOpts)
+    (fields : List (String × FieldDecl)) (st : MState) (op : ROp)
+    (hi : c.immutable = true) (htbl : GuardedTbl tbl = true) :
+    (stepR bound dh tbl O c fields st op).1.attrs = st.attrs := by
+  cases op with
+  | plain o => simp only [stepR]; exact immutable_stepB_state bound dh tbl O c fields st.attrs o hi htbl
+  | take f =>
+    simp only [stepR]
+    repeat' split
+    all_goals rfl
+  | assignRef f i =>
+    simp only [stepR]
+    split
+    · rfl
+    · rename_i w _
+      split
+      · rfl
+      · show (setattrStep O c fields st.attrs f w.payload).1 = st.attrs
+        rw [setattr_immutable O c fields st.attrs f w.payload hi]
+  | callRef i m =>
+    simp only [stepR]
+    split
+    · rfl
+    · rename_i w _
+      split
+      · rfl
+      · rename_i r hfind
+        have hr := (List.all_eq_true.mp htbl) r (findRec_mem tbl w.kind m.name r hfind)
+        show (refCallStep O c fields st.attrs w.field w.kind r m w.payload).1 = st.attrs
+        unfold refCallStep
+        split
+        · split
+          · rfl
+          · cases applyNative w.kind m w.payload <;> rfl
+        · rcases call_immutable O c fields st.attrs w.field w.kind r m w.payload hi hr with ⟨e, he⟩
+          rw [he]
+
+/-- **C04 (structures), every history**: assignment, deletion, every mutator of a field value, of a
+    nested wrapper (either binding) and of a kept — possibly stale — wrapper reference: nothing
+    changes an ImmutableStructure -/
+theorem immutable_runR_frozen (bound dh : Bool) (tbl : List MethodRec) (O : Oracles) (c : ClassOpts)
+    (fields : List (String × FieldDecl)) (hi : c.immutable = true) (htbl : GuardedTbl tbl = true) :
+    ∀ (ops : List ROp) (st : MState), (runR bound dh tbl O c fields st ops).1.attrs = st.attrs
+  | [], st => rfl
+  | op :: rest, st => by
+    simp only [runR]
+    rw [immutable_runR_frozen bound dh tbl O c fields hi htbl rest]
+    exact immutable_stepR_state bound dh tbl O c fields st op hi htbl
+
+/-- every mutator row checks `_raise_if_immutable()` itself (needed for wrappers that do not reach
+    the owning field's own check: scratch-bound nested wrappers) -/
+def AllGuardedTbl (tbl : List MethodRec) : Bool := tbl.all (fun r => r.guarded)
+
+theorem nested_immField (c : ClassOpts) (s : Attrs) (f g : String) (k : PyVal) (kind : String)
+    (r : MethodRec) (m : NOp) (cur elem w : PyVal) (hf : c.immFields.contains f = true)
+    (hset : lookup f s = some w) (hr : r.guarded = true) :
+    lookup f (nestedStep c s g k kind r m cur elem).1 = some w := by
+  unfold nestedStep
+  cases hgf : (f == g)
+  · have keep : ∀ u, lookup f (assocSet g u s) = some w := fun u => by
+      rw [lookup_assocSet_ne g f u hgf]; exact hset
+    split
+    · exact hset
+    · cases applyNative kind m elem with
+      | error e => exact hset
+      | ok new =>
+        simp only []
+        repeat' split
+        all_goals first | exact hset | exact keep _
+  · have : f = g := by simpa using hgf
+    subst this
+    rw [if_pos (by rw [hr, hf]; rfl)]
+    exact hset
+
+theorem nestedBound_immField (O : Oracles) (c : ClassOpts) (fields : List (String × FieldDecl))
+    (s : Attrs) (f g : String) (k : PyVal) (kind : String) (r : MethodRec) (m : NOp)
+    (cur elem w : PyVal) (hf : c.immFields.contains f = true)
+    (hfield : (lookup f fields).isSome = true) (hset : lookup f s = some w) (hr : r.guarded = true) :
+    lookup f (nestedBoundStep O c fields s g k kind r m cur elem).1 = some w := by
+  unfold nestedBoundStep
+  split
+  · exact hset
+  · rename_i hng
+    have hgf : (f == g) = false := by
+      cases h : (f == g)
+      · rfl
+      · have : f = g := by simpa using h
+        subst this
+        exact absurd (by rw [hr, hf]; simp) hng
+    cases applyNative kind m elem with
+    | error e => exact hset
+    | ok new =>
+      simp only []
+      split
+      · split
+        · exact hset
+        · exact setattr_immField O c fields s f g _ w hf hfield hset
+      · split
+        · rw [lookup_assocSet_ne g f _ hgf]; exact hset
+        · exact hset
+
+/-- an immutable field keeps its value under EVERY operation (nested calls under either binding and
+    kept references included), provided every mutator row is guarded -/
+theorem immField_stepR_frozen (bound dh : Bool) (tbl : List MethodRec) (O : Oracles) (c : ClassOpts)
+    (fields : List (String × FieldDecl)) (st : MState) (f : String) (w : PyVal) (op : ROp)
+    (hf : c.immFields.contains f = true) (hfield : (lookup f fields).isSome = true)
+    (hset : lookup f st.attrs = some w) (htbl : AllGuardedTbl tbl = true) :
+    lookup f (stepR bound dh tbl O c fields st op).1.attrs = some w := by
+  have hg : GuardedTbl tbl = true := by
+    unfold GuardedTbl; rw [List.all_eq_true]; intro r hr
+    have h1 : r.guarded = true := (List.all_eq_true.mp htbl) r hr
+    show (r.guarded || r.validated) = true
+    rw [h1]; rfl
+  cases op with
+  | take g =>
+    simp only [stepR]
+    repeat' split
+    all_goals exact hset
+  | assignRef g i =>
+    simp only [stepR]
+    split
+    · exact hset
+    · rename_i wr _
+      split
+      · exact hset
+      · show lookup f (setattrStep O c fields st.attrs g wr.payload).1 = some w
+        exact setattr_immField O c fields st.attrs f g wr.payload w hf hfield hset
+  | callRef i m =>
+    simp only [stepR]
+    split
+    · exact hset
+    · rename_i wr _
+      split
+      · exact hset
+      · rename_i r hfind
+        have hr := (List.all_eq_true.mp hg) r (findRec_mem tbl wr.kind m.name r hfind)
+        show lookup f (refCallStep O c fields st.attrs wr.field wr.kind r m wr.payload).1 = some w
+        unfold refCallStep
+        split
+        · split
+          · exact hset
+          · cases applyNative wr.kind m wr.payload <;> exact hset
+        · exact call_immField O c fields st.attrs f wr.field wr.kind r m wr.payload w hf hfield hset hr
+  | plain o =>
+    simp only [stepR]
+    cases o with
+    | setattr g v =>
+      have : stepB bound dh tbl O c fields st.attrs (.setattr g v) = setattrStep O c fields st.attrs g v := by
+        cases bound <;> rfl
+      rw [this]; exact setattr_immField O c fields st.attrs f g v w hf hfield hset
+    | delitem g =>
+      have : stepB bound dh tbl O c fields st.attrs (.delitem g) = delitemStepH dh O c st.attrs g := by
+        cases bound <;> rfl
+      rw [this]
+      cases hres : delitemStepH dh O c st.attrs g with
+      | mk a o =>
+        rcases C03.delitemH_facts dh O c st.attrs a g o hres with h1 | h1
+        · have := delitem_immField c st.attrs f g w hf hset
+          rw [h1] at this; exact this
+        · show lookup f a = some w
+          rw [h1.2]; exact hset
+    | call g m =>
+      have : stepB bound dh tbl O c fields st.attrs (.call g m) = step tbl O c fields st.attrs (.call g m) := by
+        cases bound <;> rfl
+      rw [this]
+      exact immField_step_frozen tbl O c fields st.attrs f w (.call g m) hf hfield hset hg rfl
+    | callNested g k m =>
+      cases bound with
+      | false =>
+        show lookup f (step tbl O c fields st.attrs (.callNested g k m)).1 = some w
+        simp only [step]
+        split
+        · split
+          · split
+            · exact hset
+            · rename_i kind _
+              split
+              · exact hset
+              · rename_i r hfind
+                exact nested_immField c st.attrs f g k kind r m _ _ w hf hset
+                  ((List.all_eq_true.mp htbl) r (findRec_mem tbl kind m.name r hfind))
+          · exact hset
+        · exact hset
+      | true =>
+        simp only [stepB]
+        split
+        · split
+          · split
+            · exact hset
+            · rename_i kind _
+              split
+              · exact hset
+              · rename_i r hfind
+                exact nestedBound_immField O c fields st.attrs f g k kind r m _ _ w hf hfield hset
+                  ((List.all_eq_true.mp htbl) r (findRec_mem tbl kind m.name r hfind))
+          · exact hset
+        · exact hset
+
+/-- **C04 (fields), every history** -/
+theorem immField_runR_frozen (bound dh : Bool) (tbl : List MethodRec) (O : Oracles) (c : ClassOpts)
+    (fields : List (String × FieldDecl)) (f : String) (w : PyVal)
+    (hf : c.immFields.contains f = true) (hfield : (lookup f fields).isSome = true)
+    (htbl : AllGuardedTbl tbl = true) :
+    ∀ (ops : List ROp) (st : MState), lookup f st.attrs = some w →
+      lookup f (runR bound dh tbl O c fields st ops).1.attrs = some w
+  | [], st, hs => hs
+  | op :: rest, st, hs => by
+    simp only [runR]
+    exact immField_runR_frozen bound dh tbl O c fields f w hf hfield htbl rest _
+      (immField_stepR_frozen bound dh tbl O c fields st f w op hf hfield hs htbl)
+
+theorem tables_all_guarded : AllGuardedTbl Generated.wrappers = true := by decide
+
 /-- the table regenerated from the current working tree refuses every mutator on immutables -/
 theorem tables_guarded : GuardedTbl Generated.wrappers = true := by decide
 
